@@ -188,13 +188,29 @@ class C07(Check):
                     out.fail("C07.fixpoint", "%s: returned object %r re-serializes to %s which decodes to %r" % (where, o, again.hex(), o2), "fixpoint")
             except Exception as ex:  # noqa
                 out.fail("C07.fixpoint", "%s: returned object %r cannot be serialized again: %s: %s" % (where, got[1], type(ex).__name__, ex), "fixpoint-raised:" + type(ex).__name__)
-            # isolation
-            big = b"\xa5\x5a\xff" + data + b"\xff\x00\xc3\x3c"
-            mv = memoryview(big)[3:3 + len(data)]
-            alt1 = self._decode_real(pydsdl, real, bytearray(data), hdr)
-            alt2 = self._decode_real(pydsdl, real, mv, hdr)
-            if alt1 != got or alt2 != got:
-                out.fail("C07.isolation", "%s: result depends on the buffer type / neighbours: bytes %r bytearray %r memoryview %r" % (where, got, alt1, alt2), "isolation")
+        # isolation / buffer form: the byte string is the sequence of octets of the buffer, whatever object carries it - bytes,
+        # bytearray, a memoryview into a larger buffer with hostile neighbours, or a memoryview with another item format or shape
+        big = b"\xa5\x5a\xff" + data + b"\xff\x00\xc3\x3c"
+        mv = memoryview(big)[3:3 + len(data)]
+        alts = [("bytearray", bytearray(data)), ("memoryview-slice", mv)]
+        n = len(data)
+        if n:
+            sel = (n * 31 + data[0]) % 5  # a pure function of the data: which unusual view is tried for this message
+            if sel == 0:
+                alts.append(("memoryview-c", memoryview(data).cast("c")))
+            elif sel == 1:
+                alts.append(("memoryview-b", memoryview(data).cast("b")))
+            elif sel == 2 and n % 2 == 0:
+                alts.append(("memoryview-H", memoryview(data).cast("H")))
+            elif sel == 3 and n % 4 == 0:
+                alts.append(("memoryview-I", memoryview(bytearray(data)).cast("I")))
+            elif sel == 4 and n % 2 == 0 and n >= 4:
+                alts.append(("memoryview-2d", memoryview(data).cast("B", shape=[2, n // 2])))
+        for nm, buf in alts:
+            alt = self._decode_real(pydsdl, real, buf, hdr)
+            out.stats["buffer_form:" + nm] += 1
+            if alt != got:
+                out.fail("C07.isolation", "%s: result depends on the buffer object / its neighbours: bytes -> %r, %s -> %r" % (where, got, nm, alt), "isolation:" + nm.split("-")[0])
         return got
 
 
